@@ -229,3 +229,31 @@ func letters(k int) string {
 	}
 	return s
 }
+
+// OlderVersion derives a sibling file of another proto package ("…v0") that declares the same
+// service and RPC names with other verbs and paths — the usual v1/v2 API layout. Body verbs rotate
+// among themselves and bodiless verbs among themselves, so the sibling stays a valid definition.
+func OlderVersion(f *spec.File) *spec.File {
+	pkg := f.Package + "v0"
+	o := f.Rename(pkg, strings.TrimSuffix(f.Path, ".proto")+"_v0.proto", f.GoImport+"v0")
+	o.GoName = f.GoName + "v0"
+	rot := map[int32]int32{1: 4, 4: 1, 2: 3, 3: 5, 5: 2}
+	for _, s := range o.Services {
+		for _, m := range s.Methods {
+			if m.HTTP == nil {
+				continue
+			}
+			if m.HTTP.Verb != 0 {
+				m.HTTP.Verb = rot[m.HTTP.Verb]
+			}
+			if m.HTTP.Path != "" {
+				if strings.HasPrefix(m.HTTP.Path, "/") {
+					m.HTTP.Path = "/old" + m.HTTP.Path
+				} else {
+					m.HTTP.Path = "old/" + m.HTTP.Path
+				}
+			}
+		}
+	}
+	return o
+}
